@@ -64,8 +64,30 @@ func hwDecodeProvider(m map[string]interface{}, yamlShape bool) (core.Provider, 
 	return holder.Ammo, err
 }
 
+// hwPatient widens the client-side time limits that are NOT the subject of a case, so that a machine
+// under heavy load cannot turn an exchange into a spurious failure (loopback only; nothing waits for them).
+func hwPatient(m map[string]interface{}) {
+	switch m["type"] {
+	case "http", "http/scenario":
+		if _, ok := m["tls-handshake-timeout"]; !ok {
+			m["tls-handshake-timeout"] = "120s"
+		}
+		if _, ok := m["dial"]; !ok {
+			m["dial"] = map[string]interface{}{"timeout": "120s"}
+		}
+	case "grpc", "grpc/scenario":
+		if _, ok := m["timeout"]; !ok {
+			m["timeout"] = "300s"
+		}
+		if _, ok := m["dial_options"]; !ok {
+			m["dial_options"] = map[string]interface{}{"timeout": "120s"}
+		}
+	}
+}
+
 // hwDecodeGunFactory builds the per-instance gun factory from the gun's config map.
 func hwDecodeGunFactory(m map[string]interface{}, yamlShape bool) (func() (core.Gun, error), error) {
+	hwPatient(m)
 	var holder struct {
 		NewGun func() (core.Gun, error) `config:"gun" validate:"required"`
 	}
